@@ -89,6 +89,36 @@ class Ctx:
         self.functions.add(qualname)
 
 
+class RenamedRules:
+    """A view of a context under which a rule set written for one property reports under another property's rule ids
+    (`mapping`: prefix of the original rule id -> replacement).  Everything else is the context itself."""
+
+    def __init__(self, ctx, mapping):
+        object.__setattr__(self, "_ctx", ctx)
+        object.__setattr__(self, "_mapping", dict(mapping))
+
+    def _r(self, rule):
+        for a, b in self._mapping.items():
+            if rule.startswith(a):
+                return b + rule[len(a):]
+        return rule
+
+    def check(self, rule, *a, **k):
+        return self._ctx.check(self._r(rule), *a, **k)
+
+    def anchor(self, rule, *a, **k):
+        return self._ctx.anchor(self._r(rule), *a, **k)
+
+    def error(self, rule, *a, **k):
+        return self._ctx.error(self._r(rule), *a, **k)
+
+    def __getattr__(self, name):
+        return getattr(self._ctx, name)
+
+    def __setattr__(self, name, value):
+        setattr(self._ctx, name, value)
+
+
 def load_known() -> List[Dict[str, Any]]:
     if not os.path.exists(KNOWN_FILE):
         return []
